@@ -21,6 +21,11 @@ def witnessRun (fixed : Bool) : Book :=
   let b := setSearchResult fixed b 3 1350 10 1000
   setSearchResult fixed b 3 1350 (-30) 1000
 
+/-- a three-node chain root → 1 → 2 (for the non-vacuity example of `AddOk` with an existing child) -/
+def exB : Book := addPos true (addPos true (Book.new 7 {}) 1 [(10, 0)] []) 2 [(20, 1)] []
+/-- a rank for `exB` extended by a node 3 between the root and node 2 -/
+def exR (i : Nat) : Nat := if i = 0 then 0 else if i = 2 then 2 else 1
+
 /-- all score equations of all nodes, as a Boolean -/
 def scoresOkB (b : Book) : Bool := (List.range b.size).all fun i => decide (nmOk b i) && decide (peOk b i)
 
